@@ -214,35 +214,35 @@ theorem C17_units (n : Rat) (base : Rat) (env : LenEnv) :
 
 /-- With a viewBox, a percentage (or a missing attribute = 100%) refers to the viewBox side. -/
 theorem C17_size_percent_of_viewBox (p q : Rat) (x y vw vh dw dh : Rat) (env : LenEnv) :
-    (resolveSvgSize id id ⟨some ⟨p, .percent⟩, some ⟨q, .percent⟩, some (x, y, vw, vh), dw, dh, env⟩).1
+    (resolveSvgSizeCore id id ⟨some ⟨p, .percent⟩, some ⟨q, .percent⟩, some (x, y, vw, vh), dw, dh, env⟩).1
       = sizeFromWh (vw * (p / 100)) (vh * (q / 100)) := by
-  simp [resolveSvgSize]
+  simp [resolveSvgSizeCore]
 
 /-- Without a viewBox, a percentage refers to `Options::default_size`, and the caller is told to
     fall back to the content's bounding box (`restore_viewbox`). -/
 theorem C17_size_percent_of_default (p q dw dh : Rat) (env : LenEnv) :
-    resolveSvgSize id id ⟨some ⟨p, .percent⟩, some ⟨q, .percent⟩, none, dw, dh, env⟩
+    resolveSvgSizeCore id id ⟨some ⟨p, .percent⟩, some ⟨q, .percent⟩, none, dw, dh, env⟩
       = (sizeFromWh (p / 100 * dw) (q / 100 * dh), true) := by
-  simp [resolveSvgSize, convertLength]
+  simp [resolveSvgSizeCore, convertLength]
 
 /-- Missing `width`/`height` mean 100 %. -/
 theorem C17_size_missing_is_100 (vb : Option (Rat × Rat × Rat × Rat)) (dw dh : Rat) (env : LenEnv) :
-    resolveSvgSize id id ⟨none, none, vb, dw, dh, env⟩
-      = resolveSvgSize id id ⟨some ⟨100, .percent⟩, some ⟨100, .percent⟩, vb, dw, dh, env⟩ := by
-  simp [resolveSvgSize, pct100]
+    resolveSvgSizeCore id id ⟨none, none, vb, dw, dh, env⟩
+      = resolveSvgSizeCore id id ⟨some ⟨100, .percent⟩, some ⟨100, .percent⟩, vb, dw, dh, env⟩ := by
+  simp [resolveSvgSizeCore, pct100]
 
 /-- Absolute lengths are taken as they are (no viewBox influence, no restore). -/
 theorem C17_size_absolute (w h : Length) (hw : w.unit ≠ .percent) (hh : h.unit ≠ .percent)
     (vb : Option (Rat × Rat × Rat × Rat)) (dw dh : Rat) (env : LenEnv) (b1 b2 : Rat) :
-    resolveSvgSize id id ⟨some w, some h, vb, dw, dh, env⟩
+    resolveSvgSizeCore id id ⟨some w, some h, vb, dw, dh, env⟩
       = (sizeFromWh (convertLength id w b1 env) (convertLength id h b2 env), false) := by
   have cl : ∀ (l : Length) (b b' : Rat), l.unit ≠ .percent → convertLength id l b env = convertLength id l b' env := by
     intro l b b' hl; cases l with | mk n u => cases u <;> simp_all [convertLength]
   cases vb with
-  | none => simp [resolveSvgSize, hw, hh, cl w 100 b1 hw, cl h 100 b2 hh]
+  | none => simp [resolveSvgSizeCore, hw, hh, cl w 100 b1 hw, cl h 100 b2 hh]
   | some v =>
     obtain ⟨x, y, vw, vh⟩ := v
-    simp [resolveSvgSize, hw, hh, cl w vw b1 hw, cl h vh b2 hh]
+    simp [resolveSvgSizeCore, hw, hh, cl w vw b1 hw, cl h vh b2 hh]
 
 /-- The result is an error exactly when a resolved side is not a positive finite number. -/
 theorem C17_size_error_iff (w h : Rat) :
@@ -253,7 +253,23 @@ theorem C17_size_error_iff (w h : Rat) :
 example : (viewBoxToTransform Align.xMidYMid false (0 : Rat) 0 100 50 200 200).tx = 0 ∧
           (viewBoxToTransform Align.xMidYMid false (0 : Rat) 0 100 50 200 200).ty = 50 := by
   constructor <;> decide +kernel
-example : resolveSvgSize id id ⟨some ⟨50, .percent⟩, none, none, 400, 600, ⟨96, 12⟩⟩ = (some (200, 600), true) := by
+example : resolveSvgSizeCore id id ⟨some ⟨50, .percent⟩, none, none, 400, 600, ⟨96, 12⟩⟩ = (some (200, 600), true) := by
   decide +kernel
+
+/-- the attribute filter of fix a254553 changes nothing for lengths that fit into `f32` -/
+theorem C17_size_filter_transparent (r r64 : Rat → Rat) (i : Convert.SizeInput)
+    (hw : ∀ l, i.width = some l → Convert.fitsF32 r l = true)
+    (hh : ∀ l, i.height = some l → Convert.fitsF32 r l = true) :
+    Convert.resolveSvgSize r r64 i = Convert.resolveSvgSizeCore r r64 i := by
+  unfold Convert.resolveSvgSize
+  have h1 : i.width.filter (Convert.fitsF32 r) = i.width := by
+    cases hwv : i.width with
+    | none => rfl
+    | some l => simp [Option.filter, hw l hwv]
+  have h2 : i.height.filter (Convert.fitsF32 r) = i.height := by
+    cases hhv : i.height with
+    | none => rfl
+    | some l => simp [Option.filter, hh l hhv]
+  rw [h1, h2]
 
 end Resvg.Props.C17
